@@ -126,22 +126,38 @@ func VerifC15HTTPHandler() {
 	req := &http.Request{Method: http.MethodPost, Header: http.Header{"Content-Type": []string{"application/x-protobuf"}}, Body: body}
 	resp := &vc15Resp{h: http.Header{}}
 	sig := vChoice("signal", 3)
+	// a request may carry envelopes (resource, scope, an empty metric) but no item at all: it is
+	// acknowledged with success without being handed to the consumer
+	noItems := vChoice("request-without-items", 2) == 1
 	switch sig {
 	case 0:
 		td := ptrace.NewTraces()
-		td.ResourceSpans().AppendEmpty().ScopeSpans().AppendEmpty().Spans().AppendEmpty().SetName("s")
+		ss := td.ResourceSpans().AppendEmpty().ScopeSpans().AppendEmpty()
+		ss.Scope().SetName("scope")
+		if !noItems {
+			ss.Spans().AppendEmpty().SetName("s")
+		}
 		body.data, err = ptraceotlp.NewExportRequestFromTraces(td).MarshalProto()
 		vAssert(err == nil && len(body.data) > 0, "http-handler/request-encoded")
 		handleTraces(resp, req, trace.New(sink, obs))
 	case 1:
 		ld := plog.NewLogs()
-		ld.ResourceLogs().AppendEmpty().ScopeLogs().AppendEmpty().LogRecords().AppendEmpty().SetSeverityText("x")
+		sl := ld.ResourceLogs().AppendEmpty().ScopeLogs().AppendEmpty()
+		sl.Scope().SetName("scope")
+		if !noItems {
+			sl.LogRecords().AppendEmpty().SetSeverityText("x")
+		}
 		body.data, err = plogotlp.NewExportRequestFromLogs(ld).MarshalProto()
 		vAssert(err == nil && len(body.data) > 0, "http-handler/request-encoded")
 		handleLogs(resp, req, logs.New(sink, obs))
 	default:
 		md := pmetric.NewMetrics()
-		md.ResourceMetrics().AppendEmpty().ScopeMetrics().AppendEmpty().Metrics().AppendEmpty().SetEmptyGauge().DataPoints().AppendEmpty().SetIntValue(1)
+		g := md.ResourceMetrics().AppendEmpty().ScopeMetrics().AppendEmpty().Metrics().AppendEmpty()
+		g.SetName("m")
+		dps := g.SetEmptyGauge().DataPoints()
+		if !noItems {
+			dps.AppendEmpty().SetIntValue(1)
+		}
 		body.data, err = pmetricotlp.NewExportRequestFromMetrics(md).MarshalProto()
 		vAssert(err == nil && len(body.data) > 0, "http-handler/request-encoded")
 		handleMetrics(resp, req, metrics.New(sink, obs))
@@ -151,6 +167,10 @@ func VerifC15HTTPHandler() {
 		vAssert(sink.calls == 0, "http-handler/incompletely-read-request-never-reaches-the-consumer")
 		vAssert(resp.status == http.StatusBadRequest, "http-handler/incompletely-read-request-is-a-400")
 		vReach("incomplete")
+	} else if noItems {
+		vAssert(sink.calls == 0, "http-handler/request-without-items-is-not-handed-to-the-consumer")
+		vAssert(resp.status == http.StatusOK, "http-handler/request-without-items-is-acknowledged-with-success")
+		vReach("no-items")
 	} else {
 		vAssert(sink.calls == 1 && sink.items == 1, "http-handler/complete-request-reaches-the-consumer-exactly-once")
 		vAssert((resp.status == http.StatusOK) == (sink.err == nil), "http-handler/200-iff-the-consumer-accepted")
